@@ -546,7 +546,11 @@ def check(prop, tier, seed):
         % (prop, tier, runs, race_runs, len(nontriv), len(reported), len(known_hits), det["divergences"], det["sample"], wall))
     if trouble:
         log("HARNESS TROUBLE:\n" + "\n".join(trouble[:3]))
-        return 2
+        if not any(v.get("replay_confirmed") for v, _ in reported):
+            return 2
+        # violations that replay were found as well: they are the verdict (a
+        # stalled or crashed worker next to them is most likely the same change
+        # seen through a run the harness could not finish)
     if runs < nplain + nrace - 0 and not reported and not known_hits:
         log("harness: only %d of %d runs executed" % (runs, nplain + nrace))
         return 2
